@@ -299,6 +299,14 @@ def run(case, tape=None):
             raise OracleFail('accessor', dict(why='initial view size'))
         grid.getAllData()[:] = cm.local(G, h.getLayout(walk[0]))
         check_accessors(grid, G, eta, case, rank)
+        if case['dtype'] != 'int64' and case.get('figblock', True):
+            # the plotting helpers read the partition; they must leave it as it was (every layout object is shared
+            # by all Grids on the manager)
+            fa = (case['seed'] if 'seed' in case else 0) % ndim
+            grid.getBlockFromDict({fa: int(shape[fa] // 2)}, comm, (case.get('seed', 0) // 7) % comm.Get_size())
+            if collect_tables(h, names, ndim) != tables:
+                raise OracleFail('partition', dict(rank=rank, why='the partition tables changed after getBlockFromDict'))
+            check_accessors(grid, G, eta, case, rank)
         for nxt in walk[1:]:
             grid.setLayout(nxt)
             check_accessors(grid, G, eta, case, rank)
